@@ -139,6 +139,7 @@ static void run_case(int ntok, char **tok)
 		else if (!strcmp(op, "recv")) { do_recv(); }
 		else if (!strcmp(op, "drain")) { pump(); }
 		else if (!strcmp(op, "dump")) {
+			t = t; /* no token for dump */
 			/* debugging aid: writer and reader rings (not used by generated cases) */
 			size_t i;
 			fprintf(stderr, "W off=%zu len=%zu max=%zu done=%zu scr=%zu ctx=%zu :", w.data.off, w.data.len, w.data.max,
@@ -152,6 +153,28 @@ static void run_case(int ntok, char **tok)
 		else { vh_add("?%s", op); break; }
 		if (!nrecv) vh_add("-");
 		if (rc < 0) vh_add("|fail%zd", rc); else vh_add("|ok");
+		/* mechanism state of both framed queues (compared with the ring-level model only) */
+		{
+			size_t i;
+			vh_add("#w:%zu,%zu,%zu,%zu,%zu,%d|", w.data.off, w.data.len, w.data.max,
+			       (size_t) w._state.done, (size_t) w._state.scratch, w._state._ctx ? 1 : 0);
+			if (!w.data.len) vh_add("-");
+			for (i = 0; i < w.data.len; i++) vh_add("%02x", ((uint8_t *) w.data.base)[(w.data.off + i) % w.data.max]);
+			vh_add("#r:%zu,%zu,%zu,%zu,%zu,%zu,%zd,%d,%d|", r.data.off, r.data.len, r.data.max,
+			       (size_t) r._state.curr, (size_t) r._state.data.pos, (size_t) r._state.data.len, (ssize_t) r._state.data.msg,
+			       (int) (r._state._ctx & 0xff), (int) ((r._state._ctx >> 8) & 0xff));
+			/* only the decoded bytes and the unread bytes are meaningful: the scratch gap in between holds
+			 * consumed or never written (reallocated) bytes */
+			{
+				size_t a = r._state.data.pos, b = a + r._state.data.len, c = r._state.curr, any = 0;
+				for (i = a; i < b && i < r.data.len; i++, any = 1) vh_add("%02x", ((uint8_t *) r.data.base)[(r.data.off + i) % r.data.max]);
+				if (!any) vh_add("-");
+				vh_add("|");
+				any = 0;
+				for (i = c; i < r.data.len; i++, any = 1) vh_add("%02x", ((uint8_t *) r.data.base)[(r.data.off + i) % r.data.max]);
+				if (!any) vh_add("-");
+			}
+		}
 	}
 	free(w.data.base); free(r.data.base);
 }
